@@ -128,28 +128,42 @@ SweepDbForDbBelowMin(s, pts, tol) == (s.dual = 0 /\ SweepHas(pts, s.gainMin)) =>
 (* ============================================================================================================ *)
 (*  C05  Fibre                                                                                                  *)
 (* ============================================================================================================ *)
-\* loss coefficient of a channel: scalar, or linear interpolation in a table <<[f, a]>> (f strictly increasing)
-RECURSIVE Interp(_, _)
+\* loss coefficient of a channel: scalar (one pair), or linear interpolation in a table of pairs <<[f, a]>>.  The table is
+\* the configuration AS WRITTEN: pairs (frequency, value) in whatever listing order (by frequency, by wavelength, ...);
+\* only the pairs matter, so the law is stated on the SET of pairs.
+TabBelow(T, f) == CHOOSE p \in T : p.f <= f /\ \A q \in T : q.f <= f => q.f <= p.f
+TabAbove(T, f) == CHOOSE p \in T : p.f >= f /\ \A q \in T : q.f >= f => q.f >= p.f
 Interp(tab, f) == IF Len(tab) = 1 THEN tab[1].a
-                  ELSE IF f <= tab[2].f \/ Len(tab) = 2
-                       THEN tab[1].a + ((tab[2].a - tab[1].a) * (f - tab[1].f)) \div (tab[2].f - tab[1].f)
-                       ELSE Interp(Tail(tab), f)
-InterpExact(tab, f) == \E k \in 1..(Len(tab) - 1) :
-                          /\ tab[k].f <= f /\ f <= tab[k + 1].f
-                          /\ ((tab[k + 1].a - tab[k].a) * (f - tab[k].f)) % (tab[k + 1].f - tab[k].f) = 0
+                  ELSE LET T == SeqRange(tab)
+                           lo == TabBelow(T, f)
+                           hi == TabAbove(T, f)
+                       IN IF lo.f = hi.f THEN lo.a ELSE lo.a + ((hi.a - lo.a) * (f - lo.f)) \div (hi.f - lo.f)
+InterpExact(tab, f) == LET T == SeqRange(tab)
+                       IN /\ \E p \in T : p.f <= f
+                          /\ \E p \in T : p.f >= f
+                          /\ LET lo == TabBelow(T, f)
+                                 hi == TabAbove(T, f)
+                             IN lo.f = hi.f \/ ((hi.a - lo.a) * (f - lo.f)) % (hi.f - lo.f) = 0
 
 \* The loss budget of a span s for a channel whose (loss coefficient x length) is alphaL:
 \*     padding + input connector + length x loss coefficient + lumped losses + output connector
 FiberLoss(s, alphaL) == s.attIn + s.conIn + alphaL + s.lumped + s.conOut
 
 \* --- clauses on one observed fibre crossing --------------------------------------------------------------------
-\* x = [attIn, conIn, conOut, lumped, raman, ch |-> <<[alphaL, in, out]>>]
+\* x = [attIn, conIn, conOut, lumped, raman, fresh, cfg, ch |-> <<[alphaL, in, out, outFresh]>>]
 FiberLossBudget(x, tol) == x.raman = 0 =>
                               \A i \in 1..Len(x.ch) : Within(x.ch[i].in - x.ch[i].out, FiberLoss(x, x.ch[i].alphaL), tol)
+\* no memory (Raman on or off): what a fibre does to a spectral information does not depend on what crossed it before:
+\* it is what a FRESH fibre with the same configuration does (fresh = 1: the event carries that reference, outFresh)
+FiberNoMemory(x, tol) == x.fresh = 1 => \A i \in 1..Len(x.ch) : Within(x.ch[i].out, x.ch[i].outFresh, tol)
+\* a span's own contributions follow from ITS OWN configuration (cfg = 1: the event carries them): latency is its length
+\* over the group velocity (latCfg, ns), PMD^2 is pmd_coef^2 x its length (pmdCfg, fs^2) - whatever link it was cut from
+FiberContribFromConfig(x, tolLat, tolPmd) == x.cfg = 1 => /\ \A i \in 1..Len(x.dLat) : Within(x.dLat[i], x.latCfg, tolLat)
+                                                          /\ \A i \in 1..Len(x.dPmd) : Within(x.dPmd[i], x.pmdCfg, tolPmd)
 
 \* --- accumulation: a = accumulators before, b = after, d = the element's own contribution (measured by
 \*     propagating through that element alone from a zero state); per channel sequences of equal length -----------
-AccAdds(a, b, d, tol) == \A i \in 1..Len(a) : Within(b[i], a[i] + d[i], tol)
+AccAdds(a, b, d, tol) == \A i \in 1..Len(a) : Within(b[i], Plus(a[i], d[i]), tol)      \* Plus saturates at +/-Inf
 \* x = [cd0, cd1, dCd, lat0, lat1, dLat, pmd0, pmd1, dPmd, pdl0, pdl1, dPdl]  (pmd*, pdl* are SQUARES)
 AccCdLinear(x, tol)       == AccAdds(x.cd0, x.cd1, x.dCd, tol)
 AccLatencyLinear(x, tol)  == AccAdds(x.lat0, x.lat1, x.dLat, tol)
